@@ -91,6 +91,16 @@ impl BoundingSphereSolver for Epos6 {
         let mut extremal_points = HashSet::new();
         extremal_points.extend(idx_min);
         extremal_points.extend(idx_max);
+        // Verification seam: let a harness own the iteration order of the hash set.
+        #[cfg(meshless_voro_verif)]
+        let extremal_points = {
+            let mut order = extremal_points.into_iter().collect::<Vec<usize>>();
+            if crate::verif::hash_order_active() {
+                order.sort_unstable();
+                crate::verif::hash_order(&mut order);
+            }
+            order
+        };
         let extremal_points = extremal_points.into_iter().map(|i| points[i]).collect::<Vec<_>>();
         let mut sphere = Welzl::bounding_sphere(&extremal_points);
 
